@@ -38,7 +38,7 @@ GCall(a) ==
                              clk |-> gclk,
                              may |-> MaySecure(a, gclk, gest),
                              why |-> [signed |-> RrSignedGenuine(a.rr) /\ RrBelongs(a.rr) /\ SigSignedGenuine(a.sig),
-                                      key |-> (a.key = "genuine" \/ gest),
+                                      key |-> (HasZoneKey(a.key) \/ gest),
                                       window |-> MayBeInWindow(Inc, Exp, gclk)],
                              ttlmax |-> TtlMax(gclk),
                              stray |-> HasStray(a.rr), mayStray |-> MayStraySecure,
